@@ -128,6 +128,11 @@ func (e *Exec) callStatic(f *frame, in ssa.Instruction, fn *ssa.Function, args [
 }
 
 func (e *Exec) canInline(fn *ssa.Function) bool {
+	if len(fn.Blocks) == 0 && fn.Pkg != nil {
+		if _, k2 := calleeKeyOf(fn); e.eng.ld.inlineExternal[k2] {
+			fn.Pkg.Build()
+		}
+	}
 	if len(fn.Blocks) == 0 {
 		return false
 	}
@@ -743,7 +748,18 @@ func (e *Exec) contractCall(f *frame, in ssa.Instruction, sp *FuncSpec, key stri
 			}
 		}
 	}
-	res := e.resultVal("r_"+short, rt)
+	var res Val
+	defined := false
+	for _, c := range sp.Clauses {
+		if c.Kind == KReturns {
+			res = e.evalSpecVal(e.eng.ld.specFunc(sp, c), args, pre)
+			res.Typ = rt
+			defined = true
+		}
+	}
+	if !defined {
+		res = e.resultVal("r_"+short, rt)
+	}
 	e.logCall(key, res)
 	var resList []Val
 	if tup, ok := rt.(*types.Tuple); ok {
@@ -967,4 +983,17 @@ func (e *Exec) summaryCall(f *frame, in ssa.Instruction, fn *ssa.Function, key s
 	res := e.resultVal("r_"+shortName(key), rt)
 	e.logCall(key, res)
 	return res, h, g
+}
+
+// evalSpecVal evaluates a value-returning spec function.
+func (e *Exec) evalSpecVal(sf *ssa.Function, args []Val, h *Heap) Val {
+	e.specDepth++
+	defer func() { e.specDepth-- }()
+	savedPriv := append([]*privRef{}, e.priv...)
+	defer func() { e.priv = savedPriv }()
+	nf := e.newFrame(sf, "")
+	e.inlineStk = append(e.inlineStk, sf)
+	res, _, _ := e.run(nf, args, h, "true")
+	e.inlineStk = e.inlineStk[:len(e.inlineStk)-1]
+	return res[0]
 }
